@@ -213,14 +213,3 @@ def register(E):
     def _(E, st, callee, a, m):
         return [(T, UNIT)]
 
-    # tracing: no subscriber installed -> every event/span is disabled
-    @model(r'^<tracing(?:_core)?::(?:metadata::)?Level as std::cmp::PartialOrd>::(le|lt|ge|gt)$')
-    def _(E, st, callee, a, m):
-        return [(T, FALSE)]
-
-    @model(r'^tracing::level_filters::LevelFilter::current$|^tracing_core::metadata::LevelFilter::current$|^tracing::metadata::LevelFilter::current$')
-    def _(E, st, callee, a, m): return [(T, Opaque('LevelFilter'))]
-
-    @model(r'^tracing::(span::)?Span::(none|new|enter|entered|in_scope|record|is_disabled|current)$|^tracing::__macro_support::\w+$|^tracing::Span::new_disabled$')
-    def _(E, st, callee, a, m):
-        return [(T, Opaque('tracing'))]
